@@ -97,6 +97,14 @@ def run(prop, tier):
         for t in traces[:2]:
             out.sample({'kind': t['kind'], 'cfg': {k: t['cfg'][k] for k in (
                 'nx', 'ny', 'nz', 'nt', 'spc', 'year', 'jjj', 'hour')}})
+    bres = []
+    if prop == 'C14':
+        # GEOS-Chem binary punch files
+        import bpchcuts
+        bres = bpchcuts.run_bpch_cuts(out, tier, rnd)
+        out.cov['evaluations'] += sum(len(t['obs']) for t in bres)
+        out.cov['distinct_nontrivial'] += sum(
+            1 for t in bres for o in t['obs'] if o['n'] > 0)
     if prop == 'C13':
         # the record cursor on which every sequential reader is built
         import recordfile
